@@ -109,6 +109,36 @@ def nested_blocks(rng, g):
     return "%s { %s } apply %s" % (pre, level(depth - 1), " ".join(rng.sample(names, rng.randint(0, 2))))
 
 
+def block_names(rng, g):
+    """names bound to BLOCKS handed down through one or two levels of block literals (reading such a name runs the block, at
+    the place of the read, not where an enclosing block was created), and binders that reuse the name of a vocabulary word
+    inside block literals (the binder wins over the word, at every depth)"""
+    a, b = g.lit("c")[0], g.lit("c")[0]
+    w = rng.choice(["length", "value", "elem", "pos", "type", "dup", "add", "drop", "swap"])
+    return rng.choice([
+        "let F := {1 add}; {{%s F}} apply apply" % a,
+        "let F := {1, 2}; [{{F}} apply] length",
+        "let F := {1, 2}; [{{F}} apply apply]",
+        "let F := {%s}; let G := {F F}; {{{G}} apply} apply apply" % a,
+        "let F := {dup}; %s {{F} apply} apply" % a,
+        "let F := {%s}; {let G := {F}; {G}} apply apply" % a,
+        "(1, 2) (|X| let F := {X 10 mul}; {{F}} apply apply)",
+        "let F := {{%s}}; {{F}} apply apply apply" % a,
+        "let F := {1 add}; %s {|X| {X F}} apply apply" % a,
+        "let F := {1 add}; let G := {2 mul}; %s {{F G}, {G F}} apply apply" % a,
+        '"abc" {|%s| %s} apply' % (w, w),
+        "[1, 2, 3] {|A| let %s := 7; A %s} apply" % (w, w),
+        "[1, 2, 3] {{|A| let %s := 7; A %s} apply} apply" % (w, w),
+        "%s {|%s| {%s} apply} apply" % (a, w, w),
+        "%s (|%s| {%s}) apply" % (a, w, w),
+        "let %s := %s; {%s} apply" % (w, a, w),
+        "let %s := %s; {{%s} apply} apply" % (w, a, w),
+        "[1, 2] {let %s := %s; {|A| A %s}} apply apply" % (w, a, w),
+        "[1, 2] %s {|A %s| A %s}  apply" % (b, w, w),
+        "[5] {|A| A %s} apply" % w,                          # control: the word itself inside a block
+    ])
+
+
 def infix_lets(rng, g):
     a, b = g.lit("c")[0], g.lit("c")[0]
     return rng.choice([
@@ -205,7 +235,7 @@ def run(ctx):
         n = 0
     for _ in range(n):
         k = rng.random()
-        progs.append(binder_program(rng, g) if k < 0.6 else nested_blocks(rng, g) if k < 0.78 else infix_lets(rng, g)
+        progs.append(binder_program(rng, g) if k < 0.55 else block_names(rng, g) if k < 0.62 else nested_blocks(rng, g) if k < 0.78 else infix_lets(rng, g)
                      if k < 0.84 else format_lets(rng, g) if k < 0.89 else scope_branches(rng, g))
     stats, irecs, mrecs = zwcorr.run_programs(ctx, h, progs, theorem="ZwVerif.C03.* / engine = ZwVerif.sem",
                                              label="C03-programs")
